@@ -117,18 +117,29 @@ structure TxSeq (b : Int) (a : Nat) (t : Tx) : Prop where
 
 theorem TxSeq.sent {b : Int} {a : Nat} {t : Tx} (h : TxSeq b a t) : Seq b a t.sentQ := (Seq.append.mp h.seq).1
 
+/-- the guard of `_receive_sack_chunk` by index: ignored iff behind `lastSacked` or beyond the last TSN assigned -/
+theorem sackStale_T {b : Int} {a : Nat} {t : Tx} (h : TxSeq b a t) (k : Nat) (hk : k < 2147483648) :
+    t.sackStale (T b k) = (decide (k < a) || decide (a + (t.sentQ.length + t.outQ.length) < k)) := by
+  unfold Tx.sackStale
+  have hb := h.bound
+  have hm : tsn_minus_one t.localTsn = T b (a + (t.sentQ.length + t.outQ.length)) := by
+    rw [h.localTsn]; unfold tsn_minus_one T; push_cast; omega
+  rw [hm, h.ls, gte_T b k a hk (by omega), gt_T b k _ hk (by omega)]
+  by_cases h1 : a ≤ k <;> simp [h1] <;> omega
+
 /-- a SACK whose cumulative TSN is behind `lastSacked` is ignored -/
 theorem receiveSack_stale {b : Int} {a : Nat} {t : Tx} (h : TxSeq b a t) (k : Nat) (hk : k < a) (gaps : List (Nat × Nat))
     (now : Int) : t.receiveSack (T b k) gaps now = .ok none := by
   unfold Tx.receiveSack
   have := h.bound
-  rw [h.ls, gt_T b a k (by omega) (by omega)]
+  rw [sackStale_T h k (by omega)]
   simp [hk]
 
-theorem not_stale {b : Int} {a : Nat} {t : Tx} (h : TxSeq b a t) (k : Nat) (hk : a ≤ k) (hk2 : k < 2147483648) :
-    uint32_gt t.lastSacked (T b k) = false := by
+/-- a SACK between `lastSacked` and the last TSN assigned passes the guard -/
+theorem not_stale {b : Int} {a : Nat} {t : Tx} (h : TxSeq b a t) (k : Nat) (hk : a ≤ k)
+    (hk2 : k ≤ a + (t.sentQ.length + t.outQ.length)) : t.sackStale (T b k) = false := by
   have := h.bound
-  rw [h.ls, gt_T b a k (by omega) hk2]
+  rw [sackStale_T h k (by omega)]
   simp; omega
 
 theorem ackedQ_seq {b : Int} {a : Nat} {t : Tx} (h : TxSeq b a t) (k : Nat) (h1 : a ≤ k) (h2 : k ≤ a + t.sentQ.length) :
